@@ -95,6 +95,8 @@ class ActorCalculateTargetPower:
     shapes = dict(component_ids=Const(CID), proposal=Opt(ProposalT), must_send=Bool)
     result = Opt(PowerT)
     native_opaque = {"component_ids": CID, "bucket": set}
+    modifies = ["self._set_power_group._component_buckets", "self._set_power_group._target_power",
+                "self._set_op_power_group._component_buckets", "self._set_op_power_group._target_power"]
     use = {f"{M}:Matryoshka.calculate_target_power": f"{M}:Matryoshka.calculate_target_power#c11"}
     requires = dict(
         zero_inside="sysb(self, component_ids).inclusion_bounds is None or "
